@@ -7,13 +7,34 @@ import time
 from . import runner, rng as R
 
 
+def _valid(spec):
+    """A candidate must still be a spec the descriptor pool accepts (else it is outside the grammar)."""
+    from . import protos
+    try:
+        files, gen = protos.lower(spec)
+        protos.build_pool(files)
+        return bool(gen)
+    except Exception:  # noqa
+        return False
+
+
+_MSG = {}
+
+
 def _fails(prop_id, spec, sc, rule):
     from . import driver
+    if not _valid(spec):
+        return False, None
     _, st, pay = runner.run_one(driver.replay_job, {"prop": prop_id, "spec": spec, "scenario": sc}, wall=90)
     if st != "ok":
         return False, None
     for v in pay["violations"]:
         if v["rule"] == rule:
+            if rule == "world_unbuildable":
+                # keep the same failure (same exception text), not just any unbuildable world
+                key = str(v.get("msg"))[:80]
+                if _MSG.setdefault("w", key) != key:
+                    continue
             return True, pay
     return False, pay
 
@@ -42,6 +63,7 @@ def _ddmin_list(items, test):
 def minimise(prop_id, mod, spec, sc, rule, budget_s=150, max_tests=120):
     t0 = time.perf_counter()
     tests = [0]
+    _MSG.clear()
     spec = copy.deepcopy(spec)
     sc = copy.deepcopy(sc)
 
